@@ -167,6 +167,8 @@ def shards(tier, seed):
             items.append({"what": "alpha", "len": L, "part": 0, "parts": 1})
         for p in range(32):
             items.append({"what": "alpha", "len": 5, "part": p, "parts": 32})
+        for p in range(256):
+            items.append({"what": "alpha", "len": 6, "part": p, "parts": 256})
         for i in range(32):
             items.append({"what": "prog", "n": 1500, "len": 14 if i % 2 else 28, "max": 400, "seed": seed * 1000 + i})
         for i in range(16):
@@ -178,7 +180,7 @@ def run_shard(item, stats):
     km = core.known_matcher(ID, globals().get("known_match"))
     w = item["what"]
     if w == "alpha":
-        core.run_cases(alpha_cases(item["len"], item["part"], item["parts"]), check, stats, km)
+        core.run_cases(alpha_cases(item["len"], item["part"], item["parts"]), check, stats, km, distinct=True)
         stats.exhaustive_parts.append(f"all {len(c02.ALPHABET)}^{item['len']} alphabet sequences of length {item['len']}")
     elif w == "prog":
         core.hyp_search(prog_case(item["len"], item["max"]), check, stats, item["n"], item["seed"], km)
